@@ -106,7 +106,8 @@ def _run_one(job) -> Dict[str, Any]:
         if err:
             # the corpus is written against the pinned tree; on a tree where an anchor text moved the entry is skipped (the check of the
             # tree itself has already run) -- it is counted, never turned into a verdict
-            return dict(id=variant["id"], prop=prop, kind=kind, ok=True, skipped=True, rules=[], why=f"not applicable to this tree: {err}")
+            strict = os.environ.get("QCOLINT_STRICT_CORPUS") == "1"     # development aid: on the pinned tree every entry must apply
+            return dict(id=variant["id"], prop=prop, kind=kind, ok=not strict, skipped=True, rules=[], why=f"not applicable to this tree: {err}")
         code, rep, errtxt = run_check(prop, "quick", tmp, write=False, quiet=True)
         rules = sorted({v["rule"] for v in (getattr(rep, "new_violations", []) or [])}) if rep else []
         if kind == "fire":
